@@ -18,13 +18,29 @@ for f in sorted(glob.glob(os.path.join(ROOT, 'evidence', 'C*.json'))):
     e = json.load(open(f)); c = e['coverage']
     out.append('| %s | %d | %d | %d / %d | %d / %d | %d | %.0f |' % (e['property_id'], len(c['jobs']), len(c['functions_under_contract']),
                c['discharged'], c['obligations'], c['bounded']['discharged'], c['bounded']['obligations'], c['supporting_facts_not_counted'], e['wall_s']))
-rf = os.path.join(ROOT, 'seeded', 'RESULTS.json')
-if os.path.exists(rf):
-    r = json.load(open(rf))
+def _load(n):
+    p_ = os.path.join(ROOT, 'seeded', n)
+    return json.load(open(p_)) if os.path.exists(p_) else {}
+first = dict(_load('RESULTS_firstpass.json')); first.update(_load('RESULTS_r3_firstpass.json'))
+final = dict(_load('RESULTS.json')); final.update(_load('RESULTS_confirm.json'))
+keys = sorted(set(first) | set(final))
+if keys:
     out.append('\n### 10.4 Seeded changes (independently authored, each validated: applies, builds, suite passes, demo fails) vs. checks\n')
-    out.append('| seed | what it changes (from its notes) | property checked | outcome | obligation reported |\n|---|---|---|---|---|')
-    for key in sorted(r):
-        x = r[key]
+    out.append('`first pass` = outcome of the registered quick check when the seed was first run, before any strengthening; `now` = outcome on the '
+               'current machinery (tools/confirm_seeds.py: the detecting job re-run alone where one is known, else the whole check).  '
+               'Rows `seed@other property` are cross-checks of a seed against a second property it also touches.\n')
+    def own(k): return k.split('@')[0].split('-')[0] == k.split('@')[1]
+    def cnt(d, pred):
+        c = {}
+        for k in keys:
+            if pred(k) and k in d:
+                o = d[k]['outcome'].split(' ')[0]
+                c[o] = c.get(o, 0) + 1
+        return ', '.join('%s %d' % kv for kv in sorted(c.items()))
+    out.append('Own property, first pass: %s.  Own property, now: %s.\n' % (cnt(first, own), cnt(final, own)))
+    out.append('| seed | what it changes (from its notes) | property checked | first pass | now | obligation reported / reason |\n|---|---|---|---|---|---|')
+    for key in keys:
+        x = final.get(key) or first.get(key)
         notes = ''
         try:
             notes = open(os.path.join(ROOT, 'seeded', x['seed'], 'notes.txt')).read().strip().split('\n')[0][:160]
@@ -32,8 +48,10 @@ if os.path.exists(rf):
             pass
         v = (x.get('violations') or [''])[0]
         m = re.search(r'obligation="([^"]*)"', v)
-        u = (x.get('undecided') or [''])[0][:140]
-        out.append('| %s | %s | %s | %s | %s |' % (x['seed'], notes.replace('|', '/'), x['prop'], x['outcome'], ((m.group(1) if m else u)[:140]).replace('|', '/')))
+        u = (x.get('undecided') or [''])[0][:140] or x.get('how', '')
+        out.append('| %s | %s | %s | %s | %s | %s |' % (x['seed'], notes.replace('|', '/'), x['prop'], first.get(key, {}).get('outcome', '-'),
+                   final.get(key, {}).get('outcome', '-') + (' (thorough)' if final.get(key, {}).get('tier') == 'thorough' else ''),
+                   ((m.group(1) if m else u)[:140]).replace('|', '/')))
 bf = os.path.join(ROOT, 'benign', 'RESULTS.json')
 if os.path.exists(bf):
     b = json.load(open(bf))
